@@ -317,7 +317,8 @@ Examples:
         if list_or_tuple_or_ndarray(variables):
             vars = get_variables(mystring,'_')
             indices = [int(v.strip('_')) for v in vars]
-            for i in reversed(range(len(vars))):
+            # replace the longest markers first ('_1' is a prefix of '_10')
+            for i in sorted(range(len(vars)), key=lambda i: -len(vars[i])):
                 mystring = mystring.replace(vars[i],variables[indices[i]])
         return mystring
 
@@ -508,7 +509,8 @@ Examples:
         if list_or_tuple_or_ndarray(variables):
             vars = get_variables(mystring,'_')
             indices = [int(v.strip('_')) for v in vars]
-            for i in reversed(range(len(vars))):
+            # replace the longest markers first ('_1' is a prefix of '_10')
+            for i in sorted(range(len(vars)), key=lambda i: -len(vars[i])):
                 mystring = mystring.replace(vars[i],variables[indices[i]])
         return mystring
 
@@ -791,7 +793,8 @@ Examples:
         if list_or_tuple_or_ndarray(variables):
             vars = get_variables(mystring,'_')
             indices = [int(v.strip('_')) for v in vars]
-            for i in reversed(range(len(vars))):
+            # replace the longest markers first ('_1' is a prefix of '_10')
+            for i in sorted(range(len(vars)), key=lambda i: -len(vars[i])):
                 mystring = mystring.replace(vars[i],variables[indices[i]])
         return mystring
 
